@@ -76,3 +76,8 @@ func VerifPrintFieldStyle(name string, number int32, elem protoreflect.Descripto
 	err := fb.printFieldStyle(name, number, elem)
 	return fb.out.out.String(), err
 }
+
+// VerifFieldTypeName is the real fieldTypeName (scalar kind name or contextRefName of the type).
+func VerifFieldTypeName(field protoreflect.FieldDescriptor) (string, error) {
+	return fieldTypeName(field)
+}
